@@ -10,6 +10,19 @@ NAMES = ["a", "b", "foo", "bar.txt", "x y", "ünï", "c.py", "sub", "deep", "lib
 CONTENTS = [b"", b"hello\n", b"a\r\nb\r\n", b"\x00\x01\xff binary", b"x" * 3000, b"line\rmac\r", b"same\n", b"same\n"]
 
 
+def _straddle(boundaries, size, pair=b"\r\n"):
+    b = bytearray(b"a" * size)
+    for k in boundaries:
+        b[k - 1:k - 1 + len(pair)] = pair
+    return bytes(b)
+
+
+# line endings that straddle the block boundaries a chunked reader may use (1 KiB ... 128 KiB), a lone CR at a
+# boundary, CR CR LF around it
+BIG_CONTENTS = [_straddle([4096], 4103), _straddle([4096, 8192], 8198), _straddle([1024, 2048, 16384, 32768, 65536, 131072], 131080),
+                _straddle([4096, 8192], 9000, b"\r"), _straddle([4096], 5000, b"\r\r\n"), b"l\r\n" * 2731]
+
+
 def sha(data):
     return hashlib.sha256(data).hexdigest()
 
@@ -25,7 +38,8 @@ def gen_tree(rng, depth=0, max_depth=4):
     for name in rng.sample(NAMES, min(n, len(NAMES))):
         r = rng.random()
         if r < 0.55 or depth >= max_depth:
-            entries[name] = ("f", rng.choice(CONTENTS) + (b"%d" % rng.randrange(5) if rng.random() < 0.5 else b""))
+            content = rng.choice(BIG_CONTENTS) if rng.random() < 0.04 else rng.choice(CONTENTS)
+            entries[name] = ("f", content + (b"%d" % rng.randrange(5) if rng.random() < 0.5 else b""))
         else:
             entries[name] = ("d", gen_tree(rng, depth + 1, max_depth))
     return entries
